@@ -33,9 +33,11 @@ type reloadStep struct {
 func c17Source(k int, lv int) map[string]string {
 	filler := strings.Repeat("\tz++\n", k) // bodies of different versions have different lengths
 	tag := fmt.Sprintf("func Tag() int {\n\tz := 0\n%s\t_ = z\n\treturn %d\n}\n\n", filler, k)
-	meth := fmt.Sprintf("func (t *T) M() int {\n\tz := %d\n%s\treturn z - z + %d*10 + t.X\n}\n\n", k, filler, k)
+	meth := fmt.Sprintf("func (t *T) M() int {\n\tz := %d\n%s\treturn z - z + %d*10 + t.X\n}\n\n", k, filler, k) +
+		fmt.Sprintf("func (t *T) M1(a int) int {\n\tz := %d\n%s\treturn z - z + %d*10 + t.X + a - a\n}\n\n", k, filler, k) +
+		fmt.Sprintf("func (t *T) MV(a int, more ...int) int {\n\tz := %d\n%s\treturn z - z + %d*10 + t.X + len(more) - len(more)\n}\n\n", k, filler, k)
 	typ := "type T struct {\n\tX int\n\tH func() int\n}\n\n"
-	vars := fmt.Sprintf("var Counter int\nvar Base int = %d\nvar Inst *T\nvar BM func() int\nvar Any any\nvar Sh Shape\nvar Err error\n\ntype Shape interface {\n\tM() int\n}\n\n", 100+k)
+	vars := fmt.Sprintf("var Counter int\nvar Base int = %d\nvar Inst *T\nvar BM func() int\nvar BM1 func(int) int\nvar BMV func(int, ...int) int\nvar Any any\nvar Sh Shape\nvar Err error\n\ntype Shape interface {\n\tM() int\n}\n\n", 100+k)
 	rest := `func Bump() int {
 	Counter++
 	return Counter
@@ -64,10 +66,17 @@ func ReadAny() int {
 }
 
 func CaptureInst() { Inst = &T{X: 5, H: Tag} }
-func CaptureBM()   { BM = Inst.M }
+func CaptureBM() {
+	BM = Inst.M
+	BM1 = Inst.M1
+	BMV = Inst.MV
+}
 func CallField() int  { return Inst.H() }
 func CallMethod() int { return Inst.M() }
 func CallBM() int     { return BM() }
+func CallBM1() int    { return BM1(3) }
+func CallBMV() int    { return BMV(1, 2, 3) }
+func CallMethod1() int { return Inst.M1(4) + Inst.MV(5, 6) - Inst.MV(7) }
 `
 	extra := ""
 	if k >= 2 {
@@ -86,7 +95,8 @@ func CallBM() int     { return BM() }
 func c17Replay(c *Ctx, hist []reloadStep, lv int) {
 	var out bytes.Buffer
 	vm := goat.New(goat.WithStdout(&out))
-	var fv goat.Value
+	var fv, hostBM goat.Value
+	haveHostBM := false
 	fail := func(i int, what string) {
 		c.violate(hashKey(fmt.Sprint(hist, lv%3)), fmt.Sprintf("reload history %v (layout %d): step %d %s: %s", histText(hist), lv%3, i+1, hist[i].Op, what),
 			map[string]any{"history": hist, "layout": lv % 3, "failed_step": i + 1, "sources": map[string]any{"v1": c17Source(1, lv), "v2": c17Source(2, lv), "v3": c17Source(3, lv)}})
@@ -125,11 +135,19 @@ func c17Replay(c *Ctx, hist []reloadStep, lv int) {
 			check = false
 		case "capture-bm":
 			_, err = vm.Call("main.CaptureBM", 0)
+			if err == nil {
+				// the host takes a bound method (with a parameter) of the same instance at the same time
+				hostBM = vm.Get("main.Inst").GetAttr("M1")
+				haveHostBM = true
+			}
 			check = false
 		case "call-field":
 			got, err = call1("main.CallField")
 		case "call-method":
 			got, err = call1("main.CallMethod")
+			if err == nil && got == st.Want {
+				got, err = call1("main.CallMethod1")
+			}
 			if err == nil && got == st.Want {
 				// the same method reached from the host through the instance
 				inst := vm.Get("main.Inst")
@@ -141,6 +159,19 @@ func c17Replay(c *Ctx, hist []reloadStep, lv int) {
 			}
 		case "call-bm":
 			got, err = call1("main.CallBM")
+			// bound methods that take arguments (fixed and variadic), captured at the same time
+			for _, fn := range []string{"main.CallBM1", "main.CallBMV"} {
+				if err == nil && got == st.Want {
+					got, err = call1(fn)
+				}
+			}
+			if err == nil && got == st.Want && haveHostBM {
+				var rets []goat.Value
+				rets, err = vm.Func(hostBM, 1, goat.Int(2))
+				if err == nil {
+					got = rets[0].Int()
+				}
+			}
 		case "call-extra":
 			got, err = call1("main.Extra")
 		case "setany":
